@@ -452,7 +452,29 @@ func (r *concpRunner) execWindow(hookID string, parkedOp cop, probes []string) {
 	var pending []chan struct{}
 	_ = pending
 	blocked := 0
+	nops := 1
+	tickPending := false
 	for i, ps := range probes {
+		if ps == "tick" {
+			// let one timer flush happen while the operation is parked (persisters opened with timer=1 only)
+			if g := r.gate; g != nil && !tickPending {
+				select {
+				case <-g.arrived:
+					g.release <- struct{}{}
+					select {
+					case <-g.done:
+						r.tag("window-tick")
+					case <-time.After(3 * time.Second):
+						tickPending = true
+						r.tag("window-tick-blocked")
+					}
+				case <-time.After(timerPatience(4 * time.Second)):
+					r.tag("window-tick-unobserved")
+				}
+			}
+			continue
+		}
+		nops++
 		if !r.timed(h, i+1, parseCop(ps), 150*time.Millisecond) {
 			blocked++
 		}
@@ -464,13 +486,19 @@ func (r *concpRunner) execWindow(hookID string, parkedOp cop, probes []string) {
 	if reached {
 		<-parkedDone
 	}
+	if tickPending {
+		select {
+		case <-r.gate.done:
+		case <-time.After(flushSlack()):
+		}
+	}
 	// wait for blocked probes
 	deadline := time.Now().Add(30 * time.Second)
 	for time.Now().Before(deadline) {
 		h.mu.Lock()
 		n := len(h.ops)
 		h.mu.Unlock()
-		if n >= len(probes)+1 {
+		if n >= nops {
 			break
 		}
 		time.Sleep(time.Millisecond)
@@ -479,8 +507,8 @@ func (r *concpRunner) execWindow(hookID string, parkedOp cop, probes []string) {
 	h.mu.Lock()
 	n := len(h.ops)
 	h.mu.Unlock()
-	if n < len(probes)+1 {
-		r.add("C11", "deadlock", fmt.Sprintf("window %s: %d of %d operations never returned", hookID, len(probes)+1-n, len(probes)+1))
+	if n < nops {
+		r.add("C11", "deadlock", fmt.Sprintf("window %s: %d of %d operations never returned", hookID, nops-n, nops))
 		return
 	}
 	r.finalReads(h)
@@ -631,6 +659,19 @@ func (concpComp) Gen(rng *rand.Rand, tier string) [][]string {
 		h = append(h, fmt.Sprintf("window %s.put.afterBatchPut put:%s:%02x get:%s has:%s get:%s", pfx, k, 0xd0+d, k, k, k))
 		h = append(h, fmt.Sprintf("window %s.rm.afterBatchDelete rm:%s get:%s has:%s", pfx, k, k, k))
 		h = append(h, fmt.Sprintf("window batch.put.enter put:%s:%02x has:%s get:%s", k, 0xe0+d, k, k))
+		hs = append(hs, h)
+	}
+	// directed, with the real timer: a writer stopped between recording its operation in the pending batch and counting it, on
+	// a batch whose counter is zero (fresh persister, or just flushed), while ONE timer flush goes through — the operation is
+	// acknowledged afterwards and must be readable whichever side of the flush it fell on
+	for d := 0; d < 3; d++ {
+		k, k2 := keys[d%len(keys)], keys[(d+1)%len(keys)]
+		h := []string{fmt.Sprintf("begin concp kind=db batch=%d timer=1 keys=%s", []int{4, 8, 100}[d], strings.Join(keys, ","))}
+		h = append(h, fmt.Sprintf("window db.put.afterBatchPut put:%s:%02x tick get:%s", k, 0xb0+d, k))
+		h = append(h, fmt.Sprintf("window none get:%s tick", k)) // an unreachable hook: only the flush (the counter is zero again)
+		h = append(h, fmt.Sprintf("window db.rm.afterBatchDelete rm:%s tick get:%s has:%s", k, k, k))
+		h = append(h, fmt.Sprintf("window none get:%s tick", k))
+		h = append(h, fmt.Sprintf("window batch.put.enter put:%s:%02x tick get:%s", k2, 0xc0+d, k2))
 		hs = append(hs, h)
 	}
 	for i := 0; i < nh; i++ {
